@@ -124,6 +124,10 @@ func BuildCase(name, scenario string, com Committee, seed int64) *Case {
 		c.Cfg.Heights = 1
 		c.Cfg.MaxRounds = 10
 		bumped := false
+		// variant: from round 1 of the new root height the locked replica is heard again and honest leaders are preferred, so
+		// an honest leader that holds the newer lock receives the older certificate (with the larger round number) in an
+		// ELECTION_VOTE; the Byzantine keys only vote
+		honestRelay := rng.Intn(2) == 0
 		c.Script = func(s *Sim, a *Omni) {
 			a.Tune = func(a *Omni, v *lib.View) {
 				a.K.HideSingle = true
@@ -143,6 +147,9 @@ func BuildCase(name, scenario string, com Committee, seed int64) *Case {
 					a.K.NoByzCandidates, a.K.SuppressHonestCandidatesP = true, 0
 					if v.Round >= 1 {
 						a.K.NoByzCandidates, a.K.SuppressHonestCandidatesP = false, 0.9
+						if honestRelay {
+							a.K.NoByzCandidates, a.K.SuppressHonestCandidatesP, a.K.MuteLockedP = true, 0, 0
+						}
 					}
 				}
 			}
